@@ -945,6 +945,7 @@ func runC12(r *Run) error {
 		"boundary families (no hidden, deep chain, no bias, many bias, uneven outputs) and nets outside the quantifier (correspondence only); " +
 		"non-trivial = feed-forward with depth >= 2; distinct by network"
 	depthQueryHistories(r, "C12")
+	twoSolversOneNetwork(r, "C12")
 	r.Note("harness built with the default GOAMD64 (v1): the Go compiler emits no fused multiply-add on amd64")
 	var inputs []c12Input
 	inputs = append(inputs, c12Boundary(r.Rng)...)
